@@ -22,15 +22,20 @@ func genC16(d *RunDesc, tier string) {
 		d.MapPolicy = simrt.MapPermuted
 	}
 
+	// sharing pattern
+	pattern := wl.intn(4) // 0 all private (no shared world at all: cold start), 1 one hot shared object, 2/3 mixed
 	// shared world
 	nObj := wl.between(1, 6)
+	if pattern == 0 {
+		nObj = 0
+	}
 	for i := 0; i < nObj; i++ {
 		k := wl.intn(NKinds)
 		v, _ := genValidVector(wl, k)
 		d.World = append(d.World, ObjSpec{Kind: k, NilRecv: wl.chance(1, 2), Vec: v})
 	}
 	// always at least one v3 object of some level so that reports exist
-	{
+	if pattern != 0 {
 		k := wl.intn(3)
 		v, _ := genValidVector(wl, k)
 		d.World = append(d.World, ObjSpec{Kind: k, Vec: v})
@@ -40,14 +45,14 @@ func genC16(d *RunDesc, tier string) {
 			d.WorldReps = append(d.WorldReps, RepSpec{Obj: i, Lang: wl.intn(len(langs))})
 		}
 	}
-	if len(d.WorldReps) == 0 {
+	if len(d.WorldReps) == 0 && pattern != 0 {
 		d.WorldReps = append(d.WorldReps, RepSpec{Obj: len(d.World) - 1, Lang: wl.intn(len(langs))})
 	}
-
-	// sharing pattern
-	pattern := wl.intn(4) // 0 all private, 1 one hot shared object, 2/3 mixed
-	hot := wl.intn(len(d.World))
-	hotRep := wl.intn(len(d.WorldReps))
+	hot, hotRep := 0, 0
+	if pattern != 0 {
+		hot = wl.intn(len(d.World))
+		hotRep = wl.intn(len(d.WorldReps))
+	}
 
 	nTasks := wl.between(2, 8)
 	maxOps := 12
@@ -75,6 +80,17 @@ func genC16(d *RunDesc, tier string) {
 		var localObjs []int  // slots with decoded objects
 		var localKinds []int // their kinds
 		var localReps []int
+		if pattern == 0 {
+			// private objects only: start from an own v3 object and its report
+			k := wl.intn(3)
+			v, _ := genValidVector(wl, k)
+			ops = append(ops, Op{K: "dec", Kind: k, NilRecv: wl.chance(1, 2), Vec: v, Dst: nextSlot, Class: "valid"})
+			ops = append(ops, Op{K: "rep", Obj: &Ref{I: nextSlot}, Lang: wl.intn(len(langs)), Dst: nextSlot + 1})
+			localObjs = append(localObjs, nextSlot)
+			localKinds = append(localKinds, k)
+			localReps = append(localReps, nextSlot+1)
+			nextSlot += 2
+		}
 		for i := 0; i < n; i++ {
 			c := wl.intn(wsum)
 			kind := 0
@@ -147,7 +163,7 @@ func genC16(d *RunDesc, tier string) {
 				ops = append(ops, op)
 			default:
 				fn := wl.intn(len(lookups))
-				ops = append(ops, Op{K: "lkp", Fn: fn, SArg: pick(wl, []string{"N", "L", "H", "X", "P", "ND", "3.1", "CVSS:3.0", "", "U", "C", "POC"}), IArg: wl.intn(7), Lang: wl.intn(len(langs))})
+				ops = append(ops, Op{K: "lkp", Fn: fn, SArg: pick(wl, lookupArgs), IArg: wl.intn(7), Lang: wl.intn(len(langs))})
 			}
 		}
 		d.Tasks = append(d.Tasks, ops)
@@ -223,13 +239,11 @@ func worldSnapshot(w *world) []string {
 
 func runC16(d *RunDesc, res *RunResult) {
 	cfg := d.simConfig()
-	w := buildWorld(d)
-	before := worldSnapshot(w)
 	nT := len(d.Tasks)
 	res.Stats.Tasks = nT
 	res.Stats.Policy = d.Sched.Policy
 
-	mk := func(results [][]string, ctxs []*taskCtx) []func() {
+	mk := func(w *world, results [][]string, ctxs []*taskCtx) []func() {
 		tasks := make([]func(), nT)
 		for t := 0; t < nT; t++ {
 			t := t
@@ -253,24 +267,15 @@ func runC16(d *RunDesc, res *RunResult) {
 
 	races0 := raceErrors()
 
-	// sequential reference: same tasks, one after the other, on this goroutine
-	seqRes := make([][]string, nT)
-	seqCtx := make([]*taskCtx, nT)
-	seqCfg := cfg
-	seqCfg.Policy = simrt.PolicyNone
-	sr := simrt.RunSeq(seqCfg, mk(seqRes, seqCtx))
-	res.Stats.SeqYields = sr.Yields
-
+	// PCT change points need an estimate of the run length: a pure function of
+	// the description (ops x a constant), not of an earlier execution, so that the
+	// concurrent phase can run first on untouched objects.
 	if d.Sched.Policy == simrt.PolicyPCT && len(d.Sched.PCTPoints) == 0 && d.Sched.PCTDepth > 0 {
 		pr := newRng(simrt.Mix(d.Sched.Seed, 77))
-		n := sr.Yields
-		if n < 2 {
-			n = 2
-		}
+		n := uint64(d.nOps())*120 + 2
 		for i := 0; i < d.Sched.PCTDepth; i++ {
 			cfg.PCTPoints = append(cfg.PCTPoints, 1+pr.u64()%(n-1))
 		}
-		// ascending
 		for i := range cfg.PCTPoints {
 			for j := i + 1; j < len(cfg.PCTPoints); j++ {
 				if cfg.PCTPoints[j] < cfg.PCTPoints[i] {
@@ -282,9 +287,25 @@ func runC16(d *RunDesc, res *RunResult) {
 	}
 	cfg.KeepSwitch = 200000
 
+	// Concurrent phase FIRST, on a freshly built world: lazily initialised state
+	// (a memoised score, a table built on first use) must meet its first uses
+	// concurrently; a reference pass beforehand would warm it up and hide the race.
+	w := buildWorld(d)
+	before := worldSnapshot(w)
 	conRes := make([][]string, nT)
 	conCtx := make([]*taskCtx, nT)
-	cr := simrt.Run(cfg, mk(conRes, conCtx))
+	cr := simrt.Run(cfg, mk(w, conRes, conCtx))
+
+	// Sequential reference afterwards: same tasks, one after the other, on this
+	// goroutine, over a second world built from the same specification.
+	w2 := buildWorld(d)
+	seqRes := make([][]string, nT)
+	seqCtx := make([]*taskCtx, nT)
+	seqCfg := cfg
+	seqCfg.Policy = simrt.PolicyNone
+	seqCfg.Explicit = nil
+	sr := simrt.RunSeq(seqCfg, mk(w2, seqRes, seqCtx))
+	res.Stats.SeqYields = sr.Yields
 
 	res.FP = simrt.Mix(sr.FP, cr.FP)
 	res.Stats.Yields = cr.Yields
@@ -330,14 +351,8 @@ func runC16(d *RunDesc, res *RunResult) {
 	// oracle 2: equals sequential
 	for t := 0; t < nT; t++ {
 		for i := range d.Tasks[t] {
-			if isPanic(conRes[t][i]) || isPanic(seqRes[t][i]) {
-				p := conRes[t][i]
-				if !isPanic(p) {
-					p = seqRes[t][i]
-				}
-				res.addViolation("panic:"+d.Tasks[t][i].K+":"+panicFrame(p), p, t, i)
-				continue
-			}
+			// A panic that happens identically in the sequential reference is not a
+			// concurrency matter (C12's subject); only differences count here.
 			if conRes[t][i] != seqRes[t][i] {
 				res.addViolation("mismatch-seq:"+d.Tasks[t][i].K,
 					fmt.Sprintf("task %d op %d (%s): sequential=%s concurrent=%s", t, i, d.Tasks[t][i].K, clip(seqRes[t][i], 600), clip(conRes[t][i], 600)), t, i)
